@@ -17,6 +17,8 @@
                                   the deposit's, the withdrawal's market, the uid of the add / update / resolve ticket);
                                   authz, bank, parameter and new-block operations change no market's ledgers
     c01m_no_book_nothing_owed     nothing is owed on a uid that has no order book
+    c01m_endblock_idle_frame      an end-block with both settlement queues empty changes nothing (the general end-block
+                                  frame and the per-market outflow equation are NOT proved)
     c01m_owed_nonneg_partial      (PARTIAL: under the ghost hypothesis `NonNegParts` of C02 — no backing part with a
                                   negative stake, KF-C03-negative-part — and valid parameters) `0 ≤ c1m_owed s m` for
                                   every market in every reachable state: the pool never holds less for a market than
@@ -93,6 +95,29 @@ theorem c01m_owed_nonneg_partial (p : Params) (bal : List (Nat × Int)) (h t : N
   intro s hnn m
   obtain ⟨_, hR, hH, hV⟩ := c05_no_halt_history_of_nonneg_parts p bal h t ops h0 hp hwf hnn
   exact c1m_owed_nonneg hR.inv (c10_invariant p bal h t ops) hH hV m
+
+/-- C01.i  (the end-block, the part proved so far.) An end-block that finds both settlement queues empty — no market
+    waiting for bet settlement, no book waiting for the payment of its participations — changes nothing at all, so the
+    ledgers of every market stay; a halting end-block changes nothing either (`c04_block_halt_unchanged`). The general
+    frame "a market in neither queue keeps its ledgers over an end-block that settles other markets" and the per-market
+    outflow equation are NOT proved here. -/
+theorem c01m_endblock_idle_frame (s : State) (hm : s.mqueue = []) (ho : s.obqueue = []) : (step s .endBlock).1 = s := by
+  have h1 : betEndBlock (s.mqueue.length + 1) s s.params.betBatch = some s := by
+    unfold betEndBlock
+    split
+    · rfl
+    · rw [hm]
+  have h2 : obEndBlock (s.obqueue.length + 1) s s.params.obBatch 0 = some s := by
+    unfold obEndBlock
+    split
+    · rfl
+    · rw [ho]; rfl
+  have : endBlockO s = some s := by
+    unfold endBlockO
+    simp only [bind, Option.bind]
+    rw [h1]
+    exact h2
+  simp only [step, endBlock, this]
 
 /-- non-vacuity: two markets, a deposit on each, a wager on market 1. The pool holds 46999900 + 27000000, split by
     market as the ledgers say; the wager on market 1 left the ledgers of market 2 alone; no backing part is negative;
